@@ -221,15 +221,53 @@ func genIP(t *rapid.T) instance {
 	return i
 }
 
-// ---------------------------------------------------------------- mac (MAC-48 / EUI-48 / EUI-64, colon or hyphen separated)
+// ---------------------------------------------------------------- mac (MAC-48 / EUI-48 / EUI-64: colon or hyphen separated octets, or dotted groups of two octets)
 
 func genMAC(t *rapid.T) instance {
 	n := pick(t, "octets", 6, 6, 8)
-	sep := pick(t, "sep", ":", "-")
+	sep := pick(t, "sep", ":", "-", ":", "-", ".")
 	hexset := pick(t, "case", hexLower, hexUpper, hexMixed)
 	oct := make([]string, n)
 	for i := range oct {
 		oct[i] = strFrom(t, "octet", hexset, 2, 2)
+	}
+	if sep == "." {
+		// the dotted notation (0000.5e00.5301): groups of two octets
+		grp := make([]string, n/2)
+		for i := range grp {
+			grp[i] = oct[2*i] + oct[2*i+1]
+		}
+		valid := strings.Join(grp, ".")
+		return instance{Valid: valid, Form: fmt.Sprintf("%d-octets-dotted", n), Corrupt: func(t *rapid.T) (string, string) {
+			switch op := pick(t, "op", "non-hex-char", "group-count", "trailing-separator", "extra-digit", "short-group"); op {
+			case "non-hex-char":
+				g := append([]string{}, grp...)
+				i := intr(t, "which", 0, len(g)-1)
+				b := []byte(g[i])
+				b[intr(t, "pos", 0, 3)] = "ghxzGZ!_ "[intr(t, "bad", 0, 8)]
+				g[i] = string(b)
+				return strings.Join(g, "."), op
+			case "group-count": // 2 or 5 groups: 4 or 10 octets
+				k := pick(t, "count", 2, 5)
+				g := append([]string{}, grp...)
+				for len(g) < k {
+					g = append(g, strFrom(t, "group", hexset, 4, 4))
+				}
+				return strings.Join(g[:k], "."), op
+			case "trailing-separator":
+				return valid + ".", op
+			case "extra-digit":
+				g := append([]string{}, grp...)
+				i := intr(t, "which", 0, len(g)-1)
+				g[i] += string(hexset[intr(t, "digit", 0, len(hexset)-1)])
+				return strings.Join(g, "."), op
+			default: // a group of three digits
+				g := append([]string{}, grp...)
+				i := intr(t, "which", 0, len(g)-1)
+				g[i] = g[i][:3]
+				return strings.Join(g, "."), op
+			}
+		}}
 	}
 	valid := strings.Join(oct, sep)
 	return instance{Valid: valid, Form: fmt.Sprintf("%d-octets%s", n, sep), Corrupt: func(t *rapid.T) (string, string) {
